@@ -104,6 +104,7 @@ let replay ic oc =
            | Some s, [k] ->
              let lines = M.observe !dbg s in
              let lines = if is_zero k then lines
+               else if k = M.Npos (M.XO M.XH) then List.filter (fun (t, _) -> char_of_tag t = 'S') lines
                else List.filter (fun (t, _) -> let c = char_of_tag t in c = 'S' || c = 'H' || c = 'F') lines in
              List.iter (fun (t, nums) -> emit oc (char_of_tag t) nums) lines
            | _ -> ())
@@ -127,10 +128,132 @@ let replay ic oc =
     done
   with End_of_file -> ())
 
+
+(* ---- monitor mode: evaluate the property monitors (coq/model/Monitors.v) on the implementation's
+   own observation blocks.  Output: `F <property> <code> <first line of case> <line of failure>` per
+   monitor hit, and a final `T <blocks> <transitions> <parses> <hits>` line. ---- *)
+let n_of_int (i : int) : M.n = n_of_hex (Printf.sprintf "%x" i)
+let int_of_n (x : M.n) : int = int_of_string ("0x" ^ hex_of_n x)
+
+let is_control c = c = 'C' || c = 'I' || c = 'A' || c = 'O' || c = 'Q' || c = 'Y' || c = 'G' || c = 'M'
+
+let monitor ic oc =
+  let lines = ref [] in
+  (try while true do lines := input_line ic :: !lines done with End_of_file -> ());
+  let arr = Array.of_list (List.rev !lines) in
+  let n = Array.length arr in
+  let dbg = ref true in
+  let case_line = ref 0 in
+  let reach = ref true in
+  let ghost : M.ghost option ref = ref None in
+  let last_blk : (M.n * M.n list) list option ref = ref None in
+  let pending : ((M.n * M.n list) list * M.n) option ref = ref None in
+  let blocks = ref 0 and trans = ref 0 and parses = ref 0 and hits = ref 0 in
+  let report ln fs =
+    List.iter (fun (p, c) ->
+      incr hits;
+      Printf.fprintf oc "F %d %d %d %d\n" (int_of_n p) (int_of_n c) (!case_line + 1) (ln + 1)) fs in
+  let tag_n c = n_of_int (Char.code c) in
+  let i = ref 0 in
+  while !i < n do
+    let l = arr.(!i) in
+    let ln = !i in
+    incr i;
+    if String.length l > 0 then begin
+      match l.[0] with
+      | 'M' -> (match nums_of_line l with [d] -> dbg := not (is_zero d) | _ -> ())
+      | 'C' ->
+        case_line := ln; reach := true; ghost := None; last_blk := None; pending := None
+      | 'I' ->
+        (match nums_of_line l with
+         | M.N0 :: _ -> ()
+         | M.Npos M.XH :: _ -> ()
+         | _ -> reach := false);
+        last_blk := None; pending := None
+      | 'A' ->
+        (match !last_blk, nums_of_line l with
+         | Some b, [a] -> pending := Some (b, a)
+         | _ -> pending := None);
+        last_blk := None;
+        if !i < n && String.length arr.(!i) > 2 && arr.(!i).[0] = 'X' && arr.(!i).[2] = 'A' then begin
+          if !reach then report ln [(n_of_int 19, n_of_int 65)];
+          pending := None
+        end
+      | 'O' ->
+        let k = match nums_of_line l with [k] -> k | _ -> M.N0 in
+        (* collect the observation lines of this block *)
+        let blk = ref [] in
+        while !i < n && (String.length arr.(!i) = 0 || not (is_control arr.(!i).[0])) do
+          let ol = arr.(!i) in
+          if String.length ol > 0 then begin
+            if ol.[0] = 'X' then
+              blk := (tag_n 'X', [tag_n (if String.length ol > 2 then ol.[2] else '?')]) :: !blk
+            else blk := (tag_n ol.[0], nums_of_line ol) :: !blk
+          end;
+          incr i
+        done;
+        let blk = List.rev !blk in
+        incr blocks;
+        if is_zero k || k = M.Npos M.XH then report ln (M.mon_block !dbg !reach blk)
+        else if !reach then begin
+          (* S-only block: a missing S line is a panic while reading the state *)
+          match M.get (tag_n 'S') blk with None -> report ln [(n_of_int 19, tag_n 'S')] | Some _ -> ()
+        end;
+        (match !pending with
+         | Some (b, a) when !reach ->
+           incr trans;
+           let g = match !ghost with Some g -> g | None ->
+             (match M.get (tag_n 'S') b with
+              | Some sl -> (match M.dec_state sl with Some s -> M.ghost_init s | None -> M.ghost_init M.initial)
+              | None -> M.ghost_init M.initial) in
+           if not (M.trans_state_eq b a blk) then report ln [(M.N0, n_of_int 4)];
+           let (fs, g') = M.mon_trans g b a blk in
+           report ln fs;
+           ghost := Some g'
+         | _ -> ());
+        pending := None;
+        (if !reach then
+          let g = match !ghost with Some g -> g | None ->
+            (match M.get (tag_n 'S') blk with
+             | Some sl -> (match M.dec_state sl with Some s -> M.ghost_init s | None -> M.ghost_init M.initial)
+             | None -> M.ghost_init M.initial) in
+          ghost := Some g;
+          if is_zero k then report ln (M.mon_ghost g blk));
+        last_blk := Some blk
+      | 'Q' ->
+        (match nums_of_line l with
+         | which :: cps when !i < n && String.length arr.(!i) > 0 && arr.(!i).[0] = 'P' ->
+           incr parses;
+           report ln (M.mon_parse !dbg which cps (nums_of_line arr.(!i)));
+           incr i
+         | _ -> ())
+      | 'Y' ->
+        (match nums_of_line l with
+         | [which; v] when !i < n && String.length arr.(!i) > 0 && arr.(!i).[0] = 'Z' ->
+           incr parses;
+           report ln (M.mon_print !dbg which v (nums_of_line arr.(!i)));
+           incr i
+         | _ -> ())
+      | 'G' ->
+        (match nums_of_line l with
+         | [v] when !i < n && String.length arr.(!i) > 0 && arr.(!i).[0] = 'Z' ->
+           incr parses;
+           report ln (M.mon_square v (nums_of_line arr.(!i)));
+           incr i
+         | _ -> ())
+      | _ -> ()
+    end
+  done;
+  Printf.fprintf oc "T %d %d %d %d\n" !blocks !trans !parses !hits
+
 let () =
   match Array.to_list Sys.argv with
   | _ :: "replay" :: inp :: out :: _ ->
     let ic = open_in inp in
     let oc = open_out out in
     replay ic oc; close_in ic; close_out oc
-  | _ -> prerr_endline "usage: driver replay <trace> <out>"; exit 2
+  | _ :: "monitor" :: inp :: out :: _ ->
+    let ic = open_in inp in
+    let oc = open_out out in
+    monitor ic oc; close_in ic; close_out oc
+  | _ -> prerr_endline "usage: driver replay|monitor <trace> <out>"; exit 2
